@@ -95,6 +95,21 @@ def run(ctx):
             t = o.split(); ctx.count(l)
             if len(t) < 4 or t[0] != 'ok' or t[1] != '0':
                 ctx.report('object-structure', '%s: %s of the structure invariants of freshly allocated objects do not hold (first: number %s of %s): an alias pointer or dimension field differs from what the headers document' % (l, t[1] if len(t) > 1 else '?', t[2] if len(t) > 2 else '?', t[3] if len(t) > 3 else '?'), {'tool': 'asan', 'lines': [l]})
+    # every _array constructor / destructor pair, and the stand-alone LWE / TLWE / polynomial operations of drv.cpp, under ASan
+    rc, out, err = run_san(aexe, ['arrays 1', 'arrays 3', 'arrays 8'], env, 1800)
+    judge('ASan, _array constructors and destructors', 'arrays 1/3/8', rc, out, err, {'tool': 'asan', 'lines': ['arrays 1', 'arrays 3', 'arrays 8']})
+    dexe = vlib.build_harness('drv.cpp', blib, 'spqlios-fma', 'asan')
+    def rvn(n, lo=-2**31, hi=2**31): return ' '.join(str(rng.randrange(lo, hi)) for _ in range(n))
+    dlines = []
+    for n in (1, 3, 7, 8, 9, 16, 33):
+        for opc in (0, 1, 2, 3, 4, 5, 6, 7, 100, 101, 102, 103, 104, 107): dlines.append('lwelin %d %d %d %s %d %s %d' % (opc, n, rng.choice([0, 1, -1, 3, -2**31]), rvn(n), 5, rvn(n), 6))
+    for (kk, nn) in ((1, 16), (2, 64), (3, 8), (1, 1024)):
+        for opc in (0, 1, 2, 3, 4, 5, 7, 20, 21, 121, 22, 23, 24, 25, 26) + ((6,) if nn == 1024 else ()):
+            dlines.append('tlwe %d %d %d %d %s %s' % (opc, kk, nn, rng.randrange(0, nn) if opc in (4, 5) else 3, rvn((kk + 1) * nn), rvn((kk + 1) * nn, 0, 2)))
+    for nn in (1, 2, 4, 8, 16, 64):
+        for opc in range(0, 14): dlines.append('poly %d %d %d %s %s %s' % (opc, nn, rng.randrange(0, 2 * nn), rvn(nn, -600, 600), rvn(nn), rvn(nn)))
+    rc, out, err = run_san(dexe, dlines, env, 3600)
+    judge('ASan, stand-alone LWE / TLWE / polynomial operations', '%d operation lines' % len(dlines), rc, out, err, {'tool': 'asan-drv', 'lines': dlines})
     # every FFT back-end under ASan: all transform / Lagrange-domain entry points once (the lifecycles above run on spqlios-fma)
     NN = 1024
     def rv(lo, hi): return ' '.join(str(rng.randrange(lo, hi)) for _ in range(NN))
@@ -175,6 +190,9 @@ def replay(ctx, data):
     if tool == 'asan':
         exe = vlib.build_harness('mem_drv.cpp', vlib.build_lib('asan'), 'spqlios-fma', 'asan')
         rc, out, err = run_san(exe, lines, dict(os.environ, ASAN_OPTIONS='detect_leaks=1:exitcode=99'), 7200); print('exit', rc, out[-200:], err[-1500:])
+    elif tool == 'asan-drv':
+        exe = vlib.build_harness('drv.cpp', vlib.build_lib('asan'), 'spqlios-fma', 'asan')
+        rc, out, err = run_san(exe, lines, dict(os.environ, ASAN_OPTIONS='detect_leaks=1:exitcode=99'), 7200); print('exit', rc, err[-1500:])
     elif tool == 'asan-fft':
         exe = vlib.build_harness('fft_drv.cpp', vlib.build_lib('asan'), data.get('backend', 'fftw'), 'asan')
         rc, out, err = run_san(exe, lines, dict(os.environ, ASAN_OPTIONS='detect_leaks=1:exitcode=99'), 7200); print('exit', rc, err[-1500:])
